@@ -21,7 +21,7 @@ import (
 // C09 — All observations of a frame agree and Equals means cell-wise equality.
 
 var evC09 = ev.New("C09", "frames reached through arbitrary derivations; (a) Len, views (Len/ItemAt/Slice), ToCSV cells (independent RFC 4180 reader), ToJSON records (encoding/json token stream, key order) and "+
-	"String() rows (fixed-width fields read off the dash line) must all describe the model table; (b) Equals against the frame itself, a rebuild with New and single-point mutants of the rebuild "+
+	"String() rows (fixed-width fields read off the dash line) must all describe the model table (and the column-less frame GroupBy().Aggregate() must be written as one empty record per row); (b) Equals against the frame itself, a rebuild with New and single-point mutants of the rebuild "+
 	"(cell, name, column order, type string<->enum / int<->float, one row fewer), both argument orders, must equal model equality; (c) the same deterministic operation applied to the frame and to its rebuild gives Equal results; "+
 	"non-trivial = non-identity index, >=2 rows, a nullable column containing a null; distinct = FNV-64 of (table, route, mutation, operation)")
 
